@@ -19,19 +19,19 @@ def getRatLists? (j : Json) : Option (List (List Rat)) :=
 def transpose (rows : List (List Rat)) (nd : Nat) : List (List Rat) :=
   (List.range nd).map (fun d => rows.map (fun r => r.getD d 0))
 
-def generalKernel? (m : String) : Option (Kernel Rat) :=
+def generalKernel? (fix : Bool) (m : String) : Option (Kernel Rat) :=
   match m with
   | "slinear" => some slinearK
   | "lagrange2" => some lagrange2K
   | "lagrange3" => some lagrange3K
-  | "akima" => some (akimaK akimaEps)
+  | "akima" => some (akimaK fix akimaEps)
   | "cubic" => some cubicK
   | _ => none
 
 /-- Value of one point; `none` inside = the method itself crashed (1D-akima on 4 points). -/
-def evalPoint (m : String) (vec : Bool) (ds : List (Nat × (Nat → Rat))) (tbl : List Nat → Rat)
+def evalPoint (fix : Bool) (m : String) (vec : Bool) (ds : List (Nat × (Nat → Rat))) (tbl : List Nat → Rat)
     (xs : List Rat) : Option (Option Rat) :=
-  match generalKernel? m with
+  match generalKernel? fix m with
   | some k => some (some (evalND k ds tbl xs))
   | none =>
     let br := fun (d : Nat × (Nat → Rat)) (x : Rat) =>
@@ -53,7 +53,7 @@ def evalPoint (m : String) (vec : Bool) (ds : List (Nat × (Nat → Rat))) (tbl 
     | "3D-lagrange3", [d, e, f], [x, y, z] =>
       some (some (lagrange3_3D d.1 e.1 f.1 d.2 e.2 f.2 tbl (br d x) (br e y) (br f z) x y z))
     | "1D-akima", [d], [x] =>
-      some (akima1D vec akimaEps d.1 d.2 (fun i => tbl [i]) (br d x) x)
+      some (akima1D fix vec akimaEps d.1 d.2 (fun i => tbl [i]) (br d x) x)
     | _, _, _ => none
 
 def checkStr : Check → String
@@ -74,6 +74,7 @@ def handle (j : Json) : Option Json := do
     let vec ← fieldBool? j "vec"
     let extrap ← fieldBool? j "extrapolate"
     let absEps ← fieldBool? j "absEps"
+    let fix ← fieldBool? j "akimaFix"
     let grids ← field? j "grids" >>= getRatLists?
     let vals ← fieldRats? j "values"
     let pts ← field? j "pts" >>= getRatLists?
@@ -82,7 +83,7 @@ def handle (j : Json) : Option Json := do
     let chk : Check := if extrap then .ok else checkAll absEps tolC ds (transpose pts ds.length)
     match chk with
     | .ok =>
-      let vs ← pts.mapM (fun p => evalPoint m vec ds tbl p)
+      let vs ← pts.mapM (fun p => evalPoint fix m vec ds tbl p)
       pure (jObj [("chk", jStr "ok"),
                   ("v", jArr (fun (o : Option Rat) => match o with
                                 | some q => jRat q
